@@ -17,7 +17,7 @@ class Prop(BaseProp):
             "the original interval; a higher threshold never keeps more; inputs unchanged. Threshold comparisons that "
             "are rounding-ambiguous (float and exact comparison disagree) are counted, not judged. distinct = "
             "(interleaving word, keyword regime, threshold class)")
-    budget = {"quick": 700, "thorough": 14000}
+    budget = {"quick": 1400, "thorough": 42000}
     must_see = ["thr_exact_hit_N-1=1", "thr_exact_hit_N-1=2", "thr_exact_hit_N-1=4", "thr_zero", "thr_one", "thr_random",
                 "spike_value_equals_threshold", "simultaneous_spikes", "max_tau_positive", "mrts_positive",
                 "profile_crosscheck", "removed_checked", "monotone_checked", "empty_train_in_list"]
